@@ -211,10 +211,16 @@ class PriorityLock(Lock, BasePriorityObject, LockHelper):
         """Make sure the highest priorty waiter will run."""
         if not self._waiters:
             return
+        # A waiter whose future is done is already on its way: it will either take
+        # the lock, or, if it was cancelled or interrupted, pass the wake-up on when
+        # it leaves the queue.  The head of the queue can change while such a waiter
+        # is in flight (a more urgent task arrives, or a waiter inherits a priority),
+        # and waking a second waiter would hand out the lock twice.
+        for fut, _ in self._waiters:
+            if fut.done():
+                return
         fut, _ = self._waiters.peek()
-
-        if not fut.done():  # pragma: no branch
-            fut.set_result(True)
+        fut.set_result(True)
 
     def effective_priority(self) -> Optional[float]:
         # waiting tasks are either PriorityTasks or not.
